@@ -195,32 +195,44 @@ def sig_rules(ctx: Ctx, fi, loop, m: str) -> None:
                 continue
             found = True
             inst = f"{FN}: {T} filter `{short(n.test, 80)}`"
-            pairs = {}
-            ok = True
-            negated = {id(leaf): neg for leaf, neg in _nnf(n.test)}
-            for c in cmps:
-                differs = isinstance(c.ops[0], ast.NotEq) != negated.get(id(c), False) if isinstance(c.ops[0], (ast.Eq, ast.NotEq)) else False
-                if not (differs and isinstance(c.comparators[0], ast.Name)):
-                    ok = False
-                else:
-                    pairs[c.left.attr] = c.comparators[0].id
-            ctx.check(ok, "SIG", inst + " compares the event with the in-force variables", function=FN,
-                      construct=f"{T} filter does not compare the event's values with the variables in force",
-                      message=f"`{short(n.test, 90)}`", file=fi.file, node=n)
-            if ok:
-                assigned = {}
-                for s in n.body:
+            # orientation-independent: the keep branch is the one that records the event's values; its condition is the test
+            # or the negation of the test (negation normal form)
+            from ..model import _Canon
+
+            def updates(blk):
+                out = {}
+                for s in blk:
                     if isinstance(s, ast.Assign) and len(s.targets) == 1 and isinstance(s.targets[0], ast.Name) \
                             and isinstance(s.value, ast.Attribute) and isinstance(s.value.value, ast.Name) and s.value.value.id == m:
-                        assigned[s.value.attr] = s.targets[0].id
+                        out[s.value.attr] = s.targets[0].id
+                return out
+            up_body, up_else = updates(n.body), updates(n.orelse)
+            keep_in_body = bool(up_body) or not up_else
+            keep_blk, skip_blk = (n.body, n.orelse) if keep_in_body else (n.orelse, n.body)
+            cond = n.test if keep_in_body else _Canon().visit_UnaryOp(ast.UnaryOp(op=ast.Not(), operand=n.test))
+            leaves = cond.values if isinstance(cond, ast.BoolOp) else [cond]
+            pairs = {}
+            ok = not isinstance(cond, ast.BoolOp) or isinstance(cond.op, ast.Or)
+            all_or = ok
+            for c in leaves:
+                good = isinstance(c, ast.Compare) and len(c.ops) == 1 and isinstance(c.ops[0], ast.NotEq) and isinstance(c.left, ast.Attribute) \
+                    and c.left.attr in attrs and isinstance(c.left.value, ast.Name) and c.left.value.id == m and isinstance(c.comparators[0], ast.Name)
+                if good:
+                    pairs[c.left.attr] = c.comparators[0].id
+                else:
+                    ok = False
+            ok = ok and set(pairs) == set(attrs)
+            ctx.check(ok, "SIG", inst + " keeps the event iff some component differs from the value in force", function=FN,
+                      construct=f"{T} filter does not compare the event's values with the variables in force"
+                      if all_or else f"{T} filter requires all components to differ",
+                      message=f"keep condition `{short(cond, 90)}`", file=fi.file, node=n)
+            if ok:
+                assigned = updates(keep_blk)
                 ctx.check(assigned == pairs, "SIG", inst + " updates exactly the compared variables on the keep path", function=FN,
                           construct=f"{T} filter does not update the in-force variables it compares with",
                           message=f"compared {pairs}, updated {assigned}", file=fi.file, node=n)
-                ctx.check(len(n.orelse) == 1 and isinstance(n.orelse[0], ast.Continue), "SIG", inst + " skips a repeated signature", function=FN,
+                ctx.check(len(skip_blk) == 1 and isinstance(skip_blk[0], ast.Continue), "SIG", inst + " skips a repeated signature", function=FN,
                           construct=f"repeated {T} is not skipped", message="", file=fi.file, node=n)
-                if isinstance(n.test, ast.BoolOp):
-                    ctx.check(isinstance(n.test.op, ast.Or), "SIG", inst + " keeps the event if any component differs", function=FN,
-                              construct=f"{T} filter requires all components to differ", message="", file=fi.file, node=n)
                 # in-force variables start out as None (nothing in force)
                 for v in pairs.values():
                     inits = [s for s in fi.node.body if isinstance(s, ast.Assign) and any(isinstance(t, ast.Name) and t.id == v for t in s.targets)
